@@ -151,7 +151,27 @@ def check(col, prog, tier, profile, fixture=None):
     if rc is not None:
         from . import c14
 
-        c14.rule_lcg(col, rc, "H6", consts_from=[crate])
+        # which state bits a priority is made of: [k, k + w) for a right shift by k followed by the cast to the w-bit
+        # priority; those bits are a function of the generator taken modulo 2^(k + w)
+        pty = util.fields_of(util.need_adt(crate, "TreapNode"))[R.PRIO]["ty"].split("::")[-1]
+        for al in getattr(crate, "aliases", []):
+            if al.get("name") == pty:
+                pty = str(al.get("ty")).split("::")[-1]
+        w = {"u8": 8, "u16": 16, "u32": 32, "u64": 64, "usize": 64}.get(pty, 32)
+        k = 0
+        gk = {g.key for g in gens}
+        for m in crate.bodies:
+            if m.key in gk or (m.is_closure and m.parent in gk):
+                for _bb, _i, st_ in m.statements():
+                    rv = st_.get("rv") or {}
+                    if st_["k"] == "assign" and rv.get("k") in ("bin", "checked") and rv.get("op") in ("Shr", "ShrUnchecked"):
+                        o = (rv.get("ops") or [None, None])[1] if "ops" in rv else rv.get("r")
+                        v = (o or {}).get("val") if isinstance(o, dict) else None
+                        try:
+                            k = max(k, int(v))
+                        except (TypeError, ValueError):
+                            k = 64
+        c14.rule_lcg(col, rc, "H6", consts_from=[crate], low_bits=(min(64, k + w),) if k + w < 64 else ())
 
 
 def _link_store_blocks(b):
